@@ -31,7 +31,7 @@ namespace OpenMEEG::MeshIOs {
             std::string magic;
             fs >> magic;
             if (magic!="OFF")
-                OpenMEEG::WrongFileFormat("File is not in OFF format.");
+                throw OpenMEEG::WrongFileFormat(fname);
 
             unsigned npts;
             fs >> io_utils::skip_comments("#") >> npts;
